@@ -4,6 +4,7 @@ import (
 	"encoding/hex"
 	"encoding/json"
 	"fmt"
+	"math"
 	"math/bits"
 	"strings"
 	"sync/atomic"
@@ -202,6 +203,14 @@ func TestC20Bits(t *testing.T) {
 	h.Note("lengths 0..%d x 8 address alignments x {every zero/non-zero pattern (len <= %d); all-zero + every single non-zero byte (all lengths); every pair of non-zero bytes (len <= %d); %d seeded random patterns (longer)}; each with surrounding bytes 0x00 and 0xFF", maxLen, maxExh, maxPairs, nRandom)
 }
 
+func seqInts(n int) []int {
+	out := make([]int, n+1)
+	for i := range out {
+		out[i] = i
+	}
+	return out
+}
+
 // ---------------------------------------------------------------------------
 // Trunc: exhaustive over mixed-width strings and every cut point
 
@@ -213,7 +222,7 @@ func TestC20Trunc(t *testing.T) {
 	slot := h.Slot()
 	tl := vk.NewTally()
 	one := func(s string, class string) bool {
-		for n := 0; n <= len(s)+2; n++ {
+		for _, n := range append(seqInts(len(s)+2), math.MaxInt, math.MaxInt-1, 1<<31, 1<<32+1) {
 			slot.Enter(s)
 			var nt bool
 			msg := vk.Guard(func() string { m, x := checkTrunc(s, n); nt = x; return m })
